@@ -9,6 +9,7 @@ directory entry (mkdir / file creation) becomes durable by fsync of the containi
 independently persist or be lost, subject to: reachable only through persisted ancestors; per file, pending operations
 persist in order (truncate before later data; written data as none / byte prefix / all).
 """
+import errno
 import itertools
 import json
 import logging
@@ -41,21 +42,38 @@ def restore():
     fc.os = os
 
 
-def record(history):
-    """Run the history on the real store over memfs; return the kernel-level trace with begin/ack markers."""
-    fs = MemFS()
+def record(history, fail=None):
+    """Run the history on the real store over memfs; return the kernel-level trace with begin/ack markers.
+
+    fail = n: the n-th fsync call of the history (file or directory, counted from 0) fails with EIO and makes nothing
+    durable; a set that raises is marked ('fail', key, value) instead of ('ack', ...)."""
+    count = [0]
+
+    def hook(label):
+        if label.startswith('fsync '):
+            n = count[0]
+            count[0] += 1
+            if n == fail:
+                raise OSError(errno.EIO, 'Input/output error')
+    fs = MemFS(hook=hook if fail is not None else None)
     fs.mkdirs(ROOT)
     _patch(fs)
     st = KeyValueStorage(ROOT)
     try:
         for k, vi in history:
             fs.log.append(('begin', k, vi))
-            st.set(k, VALUES[vi])
+            try:
+                st.set(k, VALUES[vi])
+            except OSError:
+                if fail is None:
+                    raise
+                fs.log.append(('fail', k, vi))
+                continue
             fs.log.append(('ack', k, vi))
     finally:
         st.cache.executor.shutdown(wait=True)
         restore()
-    return [op for op in fs.log if op[0] in ('begin', 'ack', 'mkdir', 'create', 'trunc', 'write', 'fsync', 'fsync_dir', 'close')]
+    return [op for op in fs.log if op[0] in ('begin', 'ack', 'fail', 'mkdir', 'create', 'trunc', 'write', 'fsync', 'fsync_dir', 'close')]
 
 
 def images(prefix):
@@ -165,24 +183,36 @@ def recover(img, dirs):
     return res
 
 
-def check_history(history):
+def count_fsyncs(history):
+    return sum(1 for op in record(history) if op[0] in ('fsync', 'fsync_dir'))
+
+
+def check_history(history, fail=None):
     """-> dict(counts..., violations)."""
     out = {'images': 0, 'nontrivial': set(), 'prefixes': 0, 'violations': [], 'recoveries': 0, 'outcomes': set()}
-    trace = record(history)
+    trace = record(history, fail)
     hist_s = ' ; '.join('set("%s",%s)' % (k, VNAMES[vi]) for k, vi in history)
+    if fail is not None:
+        hist_s += ' [fsync call #%d of the history fails with EIO]' % fail
+        out['fsync_fault_runs'] = 1
     full = None
     for cut in range(len(trace) + 1):
         prefix = trace[:cut]
-        acked, inflight, prev = {}, None, {}
+        acked, inflight, prev, maybe = {}, None, {}, {}
         for op in prefix:
             if op[0] == 'begin':
                 inflight = (op[1], op[2])
             elif op[0] == 'ack':
                 acked[op[1]] = op[2]
+                maybe.pop(op[1], None)
+                inflight = None
+            elif op[0] == 'fail':
+                # the set raised: it promised nothing, and like an interrupted set it may have harmed only its own key
+                maybe.setdefault(op[1], []).append(op[2])
                 inflight = None
         if cut > 0 and trace[cut - 1][0] in ('begin', 'close'):
             pass
-        if cut > 0 and trace[cut - 1][0] == 'begin':
+        if cut > 0 and trace[cut - 1][0] in ('begin', 'fail'):
             continue                    # same file-system state as the previous prefix
         out['prefixes'] += 1
         imgs = images(prefix)
@@ -195,8 +225,10 @@ def check_history(history):
             out['outcomes'].add(hash(tuple(sorted(res.items()))) & 0xffffffff)
             for k in KEYS:
                 r = res[k]
-                if inflight is not None and k == inflight[0]:
-                    allowed = [('ok', U), ('ok', cn(VALUES[inflight[1]]))]
+                if (inflight is not None and k == inflight[0]) or k in maybe:
+                    allowed = [('ok', U)] + [('ok', cn(VALUES[v])) for v in maybe.get(k, ())]
+                    if inflight is not None and k == inflight[0]:
+                        allowed.append(('ok', cn(VALUES[inflight[1]])))
                     if k in acked:
                         allowed.append(('ok', cn(VALUES[acked[k]])))
                     if r[0] == 'exc' or r in allowed:
@@ -214,7 +246,7 @@ def check_history(history):
                 obs = 'key "%s" reads %s' % (k, _showres(r))
                 out['violations'].append(dict(
                     key='%s | crash %s | %s' % (hist_s, at, cls), observed=obs, expected=exp, group=cls,
-                    case={'history': [list(h) for h in history], 'cut': cut,
+                    case={'history': [list(h) for h in history], 'cut': cut, 'fail': fail,
                           'trace': [_opname(o) for o in trace],
                           'image': {p: (d[:24].decode('latin1') + ('...' if len(d) > 24 else '')) + ' (%d bytes)' % len(d)
                                     for p, d in img.items()}, 'dirs': dirs},
@@ -518,12 +550,17 @@ def run(cfg):
 
     def work(chunk):
         t = {}
-        for h in chunk:
-            runner.merge_counts(t, check_history(h))
+        for h, fail in chunk:
+            runner.merge_counts(t, check_history(h, fail))
         return t
 
+    # environment deviation, bound 1: any single fsync call of the history fails (EIO) and syncs nothing
+    jobs = [(h, None) for h in hs]
+    for h in hs:
+        if len(h) <= cfg.pick(2, 3):
+            jobs.extend((h, i) for i in range(count_fsyncs(h)))
     total = {}
-    for part in runner.pmap(work, hs, cfg):
+    for part in runner.pmap(work, jobs, cfg):
         runner.merge_counts(total, part)
     te = two_epoch_cases(cfg.quick)
 
@@ -565,6 +602,7 @@ def run(cfg):
         'histories': len(hs),
         'two_epoch_histories (process killed inside a set at every trace position, new process: [get,] set same/other value, '
         'power loss at every position)': total.get('two_epoch_histories', 0),
+        'runs_with_one_failing_fsync (every fsync call of every history, one at a time)': total.get('fsync_fault_runs', 0),
         'trace_prefixes': total.get('prefixes', 0),
         'crash_images': total.get('images', 0),
         'distinct_recovery_outcomes': len(total.get('outcomes', ())),
@@ -590,7 +628,7 @@ def replay(cfg, path):
     if 'kill_at' in case:
         print(kill_runs(hist))
         return 0
-    trace = record(hist)
+    trace = record(hist, case.get('fail'))
     for i, op in enumerate(trace):
         print('%2d %s%s' % (i + 1, _opname(op), '   <-- crash after this' if i + 1 == case['cut'] else ''))
     for img, dirs in images(trace[:case['cut']]):
